@@ -88,3 +88,13 @@ Print Assumptions c04_hash_length.
 Print Assumptions c04_clean_tag_unchanged.
 Print Assumptions c04_flow_law.
 Print Assumptions c04_second_pass_law.
+
+(* THE TIE OF THE MODEL'S CONSTANT TABLES TO THE SOURCE: Gen/TablesSrc.v is regenerated from /repo by tools/tables2coq.py on every run *)
+From ZV Require Import Sanitize Flow TablesSrc TablesTie.
+Theorem c04_default_rules_as_in_source : default_rules = src_default_rules.
+Proof. exact default_rules_as_source. Qed.
+Theorem c04_no_rule_answer_as_in_source : forall rules b, find (fun r => rule_matches r b) rules = None ->
+  resolve_for_branch rules (Some b) = src_no_rule_answer /\ resolve_for_branch rules None = src_no_rule_answer.
+Proof. exact no_rule_answer_as_source. Qed.
+Print Assumptions c04_default_rules_as_in_source.
+Print Assumptions c04_no_rule_answer_as_in_source.
